@@ -939,6 +939,11 @@ func (ex *Exec) freshenRefs(st *State, v *Val) *Val {
 // tryEvalClause evaluates a callee clause at a call site; it returns nil when the
 // clause refers to names that exist only inside the callee (fewer facts assumed: sound).
 func (ex *Exec) tryEvalClause(cur, old *State, c *Clause, vars map[string]*Val, pkg *types.Package) (res *Term) {
+	// a clause about the callee's own execution (which of its calls happened, what they returned) says nothing a
+	// caller can use, and defined(x) would be evaluated against the caller's frame: such clauses are not assumed
+	if strings.Contains(c.Src, "defined(") || strings.Contains(c.Src, "call_") || strings.Contains(c.Src, "first_") {
+		return nil
+	}
 	defer func() {
 		if r := recover(); r != nil {
 			if se, ok := r.(specErr); ok {
